@@ -142,20 +142,31 @@ def make_target(execs):
     return P.expose(Target)
 
 
-def do_call(P, errors, p, kind, tok):
-    """returns (outcome, val)"""
+def do_call(P, errors, p, kind, tok, state=None, variant=0):
+    """returns (outcome, val).  state["bp"]: a batch proxy that is re-used as long as its submissions succeed (one that raised keeps
+    its queue by design); variant 1 of a oneway call is a oneway batch on that batch proxy"""
+    state = state if state is not None else {}
     try:
         if kind == "normal":
             v = p.call(tok)
+        elif kind == "oneway" and variant == 1:
+            b = state.get("bp") or P.BatchProxy(p)
+            state["bp"] = None
+            b.call(tok)
+            v = b(oneway=True)
+            state["bp"] = b
+            return ("ret", 0 if v is None else -1)
         elif kind == "oneway":
             v = p.ow(tok)
             return ("ret", 0 if v is None else -1)
         elif kind == "raise":
             v = p.boom(tok)
         elif kind == "batch":
-            b = P.BatchProxy(p)
+            b = state.get("bp") or P.BatchProxy(p)
+            state["bp"] = None
             b.call(tok)
             res = list(b())
+            state["bp"] = b
             v = res[0] if len(res) == 1 else -1
         elif kind == "getattr":
             v = getattr(p, "attr%d" % tok)
@@ -199,17 +210,29 @@ def run_scripts(scripts, servertype):
             p = None
             try:
                 p = P.Proxy(uri)
-                p._pyroMaxRetries = retries
                 p._pyroBind()
+                if sc_i % 3 == 0:
+                    # the proxy has been in use with other settings before: the retry limit in force is the one set now
+                    p._pyroMaxRetries = 2
+                    p.call(0)
+                    p.ow(0)
+                    try:
+                        p.boom(0)
+                    except ValueError:
+                        pass
+                    sc.quiesce()
+                    execs.clear()
+                p._pyroMaxRetries = retries
                 p._pyroTimeout = 5.0
                 p._pyroSeq = seq0
+                state = {}
                 for i, step in enumerate(script):
                     tok = i + 1
                     layer.oneway = step["kind"] == "oneway"
                     layer.cut_at = (7, 25, 40, 43)[(sc_i + i) % 4]
                     layer.arm(step["fault"], step.get("sticky", False))
                     try:
-                        outcome, val = do_call(P, errors, p, step["kind"], tok)
+                        outcome, val = do_call(P, errors, p, step["kind"], tok, state, variant=(sc_i + i) % 2)
                     except S.Hang:
                         outcome, val = "hang", 0
                     layer.disarm()
